@@ -19,6 +19,8 @@ CHECKS = {
     "C10": rust("model_checking", [("std", "c10", [])]),
     "C09": rust("model_checking", [("std", "c09", [])]),
     "C08": rust("model_checking", [("std", "c08", [])], [("std", "c08", []), ("nostd", "c08", [])]),
+    "C18": rust("model_checking", [("std", "c18", [])]),
+    "C12": rust("model_checking", [("std", "c12", [])], [("std", "c12", []), ("nostd", "c12", [])]),
     "C03": rust("model_checking", [("std", "c03", [])], [("std", "c03", []), ("nostd", "c03", [])]),
 }
 
